@@ -69,9 +69,8 @@ class Recorder:
 
     def count(self, rule, found, required):
         """Instance count of a rule: fewer than the frozen table is analysis-broken."""
+        # judged in finish(): a per-property module may drop the counts of rules that do not belong to the property
         self.instances[rule] = (found, required)
-        if found < required:
-            self.broken.append('rule %s matched %d instance(s), frozen table requires >= %d' % (rule, found, required))
 
     def witness(self, name, fired):
         self.witnesses.append((name, bool(fired)))
@@ -104,6 +103,9 @@ class Recorder:
                 undecided.append(o)
         for o in undecided:
             self.broken.append('undecided: %s at %s: %s' % (o.key, o.where, o.detail))
+        for rule, (found, required) in sorted(self.instances.items()):
+            if found < required:
+                self.broken.append('rule %s matched %d instance(s), frozen table requires >= %d' % (rule, found, required))
         lines = []
         seen_known = set()
         for o in knownhit:
